@@ -99,11 +99,21 @@ def rule_error_codes(ctx, errs):
     # every code the parser / from_orbit_err can set has a message
     f = tu.func('reb_string_for_particle_error')
     handled = set()
+    pn = [p_.get('name') for p_ in cfront.params(f)]
+    anchor(len(pn) == 1, 'reb_string_for_particle_error takes the error code')
     for x in walk(cfront.body(f)):
         if x.get('kind') == 'IfStmt':
-            m = re.match(r'^\(err==(\d+)\)$', render(x['inner'][0]).replace(' ', ''))
+            m = re.match(r'^\(%s==(\d+)\)$' % re.escape(pn[0]), render(x['inner'][0]).replace(' ', ''))
             if m:
                 handled.add(int(m.group(1)))
+        elif x.get('kind') == 'CaseStmt':
+            # switch (err) { case 3: return "..."; }
+            lab = strip(x['inner'][0], casts=True)
+            while lab.get('kind') == 'ConstantExpr' and lab.get('inner'):
+                lab = strip(lab['inner'][0], casts=True)
+            if lab.get('kind') == 'IntegerLiteral':
+                handled.add(int(lab['value']))
+    anchor(handled, 'code -> message mapping (if chain or switch) in reb_string_for_particle_error')
     fo = tu.func('reb_particle_from_orbit_err')
     oerrs = [int(render(e['inner'][1])) for e in walk(cfront.body(fo)) if is_assign(e) and render(e['inner'][0]).replace(' ', '') == '(*err)']
     for code in sorted(set(errs) | set(oerrs)):
@@ -434,13 +444,32 @@ def rule_pericentre_time(ctx):
         Mfwd = Mf[0].subs(Gs * (Mp + m_), mu).subs(Gs, mu / (Mp + m_))
         # inverse: o.n and o.T in the orbit calculation
         on = oT = None
-        envi = {'mu': mu, 'o.a': a}
+        envi = {'o.a': a}
+        # locals by role, names are free: the gravitational parameter is the local computed as G*(m+m); the current time is
+        # the local that is assigned a member called t
+        for d_ in walk(cfront.body(forb)):
+            cand = None
+            if d_.get('kind') == 'VarDecl' and 'init' in d_:
+                ini_ = [c_ for c_ in d_.get('inner', []) if c_.get('kind') not in ('FullComment',)]
+                cand = (d_['name'], ini_[-1]) if ini_ else None
+            elif is_assign(d_) and d_['opcode'] == '=' and strip(d_['inner'][0]).get('kind') == 'DeclRefExpr':
+                cand = (render(d_['inner'][0]), d_['inner'][1])
+            if cand is None:
+                continue
+            nm_, rhs_ = cand
+            txt_ = render(rhs_).replace(' ', '')
+            r0 = strip(rhs_, casts=True)
+            if r0.get('kind') == 'MemberExpr' and r0.get('name') == 't':
+                envi[nm_] = t
+            elif re.match(r'^\(?G\*\(+\w+\.m\+\w+\.m\)+$', txt_):
+                envi[nm_] = mu
+        anchor(any(v is mu for v in envi.values()) and any(v is t for v in envi.values()), 'gravitational parameter G*(m1+m2) and current time locals in reb_orbit_from_particle_err')
         for e in walk(cfront.body(forb)):
             if is_assign(e) and e['opcode'] == '=' and render(e['inner'][0]) == 'o.n' and 'nan' not in render(e['inner'][1]):
                 on = (_cx(toks(e['inner'][1]), envi), line_of(e))
         anchor(on is not None, 'mean motion o.n in reb_orbit_from_particle_err')
         Msym = sp.Symbol('Mcur', real=True)
-        envi.update({'o.n': on[0], 'o.M': Msym, 't0': t})
+        envi.update({'o.n': on[0], 'o.M': Msym})
         for e in walk(cfront.body(forb)):
             if is_assign(e) and e['opcode'] == '=' and render(e['inner'][0]) == 'o.T' and 'nan' not in render(e['inner'][1]):
                 oT = (_cx(toks(e['inner'][1]), envi), line_of(e))
